@@ -288,4 +288,9 @@ func e2eCase(c *kit.Case) {
 		e.t.flush(c)
 	}
 	c.Sig(true, "e2e", c.Index)
+	if c.Index < 2 {
+		c.Sample("e2e", 1, map[string]any{"server": "rest.Server on 127.0.0.1 (all middlewares off except Recover)",
+			"routes": "GET|POST|PUT|DELETE|PATCH|HEAD|OPTIONS /jwt (WithJwt), /jwtt (WithJwtTransition), /sig/:a/:b[/:c] (WithSignature strict), /loose/:a/:b (WithSignature non-strict)",
+			"jwt_config": cfg, "signature_tolerance": tol.String(), "configured_keys": len(confIdx), "client": "net/http, chunked for bodies of unknown length"})
+	}
 }
